@@ -137,6 +137,52 @@ def compare_reads(stream, model, reqs, res: dict, mech: str, byte_cap: int = 48 
             break
 
 
+def continuation_reads(stream, model, reqs, rng, res: dict, mech: str, n: int = 12) -> None:
+    """History-dependent patterns on the same object: read [a, a+n), touch an unrelated place (first visits load
+    tables / move the backing handle), then continue exactly where the first read ended - without an explicit seek
+    and with one. Compared against the model like any other read."""
+    cnt = res.setdefault("cnt", {})
+    viol = res.setdefault("viol", [])
+    size = model.size
+    if size <= 0 or not reqs:
+        return
+    for _ in range(n):
+        if viol:
+            return
+        a, ln = rng.choice(reqs)
+        ln = min(ln, 70000)
+        if ln <= 0 or a + ln >= size:
+            continue
+        b, lb = rng.choice(reqs)
+        lb = max(1, min(lb, 9000))
+        m = rng.choice([1, 512, 4096, 9000])
+        align = getattr(stream, "align", 8192) or 8192
+        # resume either at the byte where the first read ended or at the end of the last buffer it filled
+        # (that is where the backing handle was left)
+        nxt = a + ln if rng.random() < 0.5 else min(-(-(a + ln) // align) * align, size - 1)
+        steps = [("seek+read", a, ln), ("seek+read", b, lb), ("seek+read", nxt, m)]
+        if rng.random() < 0.4 and nxt == a + ln:
+            steps = [("seek+read", a, ln), ("peek-elsewhere", b, lb), ("read-on", a + ln, m)]
+        for kind, off, k in steps:
+            exp = model.expected(off, k)
+            if kind == "seek+read":
+                o = call(lambda: (stream.seek(off), stream.read(k))[1])
+            elif kind == "peek-elsewhere":
+                o = call(lambda: (stream.readoffset(off, k), stream.seek(a + ln))[0])
+            else:
+                o = call(lambda: stream.read(k))
+            cnt["continuation_reads"] = cnt.get("continuation_reads", 0) + 1
+            if not o.ok:
+                viol.append({"what": f"exception in a read/visit-elsewhere/continue sequence: {o.brief()}", "mech": mech,
+                             "detail": {"sequence": steps, "step": kind, "tb": o.tb}})
+                break
+            if o.value != exp:
+                d = mismatch_detail(off, k, o.value, exp)
+                d["sequence"] = steps
+                viol.append({"what": "content mismatch in a read/visit-elsewhere/continue sequence", "mech": mech, "detail": d})
+                break
+
+
 def crossing_count(reqs, unit: int) -> int:
     return sum(1 for o, n in reqs if n > 0 and o // unit != (o + n - 1) // unit)
 
